@@ -385,6 +385,12 @@ func genTrees(ctx *Ctx, r *rng, prop string) []Case {
 		}
 		fl("", spec)
 		c.addExpect("tree.flatten "+hx(root), "reset-readback", "ok "+entriesOut(flat))
+		// a commit of that snapshot: `Index.Reset` to it must install exactly the flattened entries
+		cdata := []byte(fmt.Sprintf("tree %x\nauthor A <a@b.cc> 1 +0000\ncommitter A <a@b.cc> 1 +0000\n\nm\n", root))
+		cc := objContent("commit", cdata)
+		c.add("st.put " + hx(sha1sum(cc)) + " " + hx(cc))
+		c.addExpect("idx.reset "+hx(sha1sum(cc)), "reset-readback", "ok "+entriesOut(flat))
+		c.add("idx.reset " + hx(root)) // a tree id is not a commit: refused
 		cases = append(cases, c)
 	}
 	// the empty snapshot
